@@ -76,6 +76,12 @@ CLAIMED = {
             "sparse_to_dense / dense_to_sparse / transform (stub detectors) for seven index kinds and two column "
             "labelings; bounded-exhaustive over that solver-enumerated space, compared with a plain-Python oracle",
             "4.C05"),
+    "C14": ("constructors of all seven detectors on symbolic hyper-parameters in boxes around the documented domain "
+            "(validation forks on them; pd.Interval contract stub): z3 decides raises => ValueError and outside the "
+            "documented domain, returns => inside; boundary configurations (m=1, b=1, M=2m, n=minimum) run every path "
+            "of the table-scorer detector runs without exception; plus a concrete grid of data lengths around the "
+            "minimum and NaN positions with the built-in scorers",
+            "4.C14"),
 }
 PENDING = {}
 TITLES = {}
